@@ -265,7 +265,8 @@ def check_property(prop, tier='quick', seed=0, write_lock=False, only=None):
                           open(path, 'w'), indent=1)
                 violations.append((oid, path, True))
                 break
-        conc_report.append(dict(unit=u.uid, points=len(pts), failed=bad, label='concrete'))
+        conc_report.append(dict(unit=u.uid, points=len(pts), failed=bad,
+                                label=('bounded: ' + str(u.opts['bounded'])) if u.opts.get('bounded') else 'concrete'))
 
     if os.environ.get('RVC_TRACE'):
         print(f'[driver] obligations done at {time.time()-t0:.1f}s', file=sys.stderr)
